@@ -137,7 +137,9 @@ CLAIMED = {
         'produces every voltage / current / power annotation of every component in both directions and every potential annotation under real_solution, complex_solution, '
         'single_frequency_complex_solution (Cartesian, polar rad, polar deg) and single_frequency_time_domain_steady_state_solution (cos/sin, rad/deg, rad/s or Hz); each '
         'label text is tokenised and every number in it is one event judged by TLC with Display!RenderVerdict (sign, exponent, mantissa, half a unit of the displayed digit) '
-        'against the exact quantity in the component\'s reference direction, negated iff reverse was requested; phases are compared modulo a full turn.',
+        'against the exact quantity in the component\'s reference direction, negated iff reverse was requested; phases are compared modulo a full turn.  The declarative '
+        'simulation description (element lists of MC_C15 with exact solutions at w = 0 and w = 2) is exercised for its four solution types, with annotation entries '
+        'that do and do not carry the reverse key.',
    ref='DESIGN.md §6 C14', technique='TLA+ spec + TLC simulation (scenarios, exact solutions) and TLC trace validation of rendered annotations (code->spec)'),
  'C20': dict(
    text='spec/Session.tla is the client-visible machine: a workspace of description objects and shared argument objects, one action per public call of C01-C12/C16/C17, each of '
